@@ -515,3 +515,77 @@ Qed.
 Example ex_plain : exists o, spec (mkInput n_notfound (Some [60; 36; 123; 98; 114; 125]) (Some [38]) None [] [] [] None []) = Some (Ok o)
   /\ o_ctype o = t_plain.
 Proof. eexists. split; [vm_compute; reflexivity|reflexivity]. Qed.
+
+(* ------------------------------------------------------------------ a Content-Type written on the object before the call
+   (NewResponse subscriber, response callback, tween -- or the constructor's keywords) never reaches the
+   client of a rendering class: the answer of __call__ is the same whatever content type / charset the
+   object carried, because prepare() labels the response with the form it renders *)
+Theorem relabel_irrelevant neg c x ct cs :
+  c_empty c = false ->
+  i_offers (x_in x) = neg (env_get accept_key accept_default (i_environ (x_in x))) offers ->
+  rmap fst (gen_call neg (set_resp (ref_obj_x c x) ct cs []) (i_environ (x_in x))) =
+  rmap fst (gen_call neg (ref_obj_x c x) (i_environ (x_in x))).
+Proof.
+  intros He Hoff. rewrite !gen_call_is_prepare.
+  rewrite (gen_prepare_is_model_x neg c x _ (ex_intro _ ct (ex_intro _ cs eq_refl)) Hoff).
+  rewrite (gen_prepare_is_model_x neg c x _ (fresh_ref_x c x) Hoff).
+  unfold ref_prepare_x. rewrite He.
+  destruct (pick_branch (chosen_type (x_in x)) (p_branches spec_policy)) as [b|] eqn:Hb.
+  - destruct (page_text_x spec_policy b c x) as [page| | |]; try reflexivity;
+      cbn [rbind]; destruct (utf8_bytes page); reflexivity.
+  - unfold chosen_type in Hb. cbn [pick_branch p_branches spec_policy b_test] in Hb.
+    repeat match type of Hb with (if ?x then _ else _) = _ => destruct x end; discriminate.
+Qed.
+
+(* ------------------------------------------------------------------ raise sites outside httpexceptions.py
+   the regenerated argument expressions equal the reference: which request property reaches which
+   constructor argument, in which fixed text; no site passes a body template *)
+Lemma with_qs_spec base qs : with_qs base qs = if truthy qs then base ++ [63] ++ qs else base.
+Proof. unfold with_qs, truthy. destruct qs; reflexivity. Qed.
+
+Theorem sites_generated_are_model r :
+  gen_site_router r = site_router r /\ gen_site_static_missing r = site_static_missing r /\
+  gen_site_static_oob r = site_static_oob r /\ gen_site_static_slash r = site_static_slash r /\
+  gen_site_append_slash r = site_append_slash r.
+Proof.
+  unfold gen_site_router, gen_site_static_missing, gen_site_static_oob, gen_site_static_slash, gen_site_append_slash,
+         site_router, site_static_missing, site_static_oob, site_static_slash, site_append_slash.
+  rewrite !with_qs_spec. unfold truthy.
+  repeat split; try reflexivity.
+  all: try (rewrite ?app_nil_r; reflexivity).
+  all: destruct (r_query_string r); cbn [is_nil negb]; rewrite <- ?app_assoc, ?app_nil_r; reflexivity.
+Qed.
+
+Theorem site_gen_is_ref name g : site_gen name = Some g -> exists f, site_ref name = Some f /\ forall r, g r = f r.
+Proof.
+  unfold site_gen, site_ref.
+  repeat match goal with |- context [if ?b then _ else _] => destruct b end; intros H; try discriminate;
+    injection H as <-; eexists; (split; [reflexivity|]); intros r;
+    destruct (sites_generated_are_model r) as (H1 & H2 & H3 & H4 & H5); assumption.
+Qed.
+
+(* through every site: no body template, no comment; detail / location are request properties inside
+   fixed text -- so the core shape theorems (html_body_shape, html_move_shape, not_found_page_safe,
+   no_request_markup) apply to the pages these sites produce *)
+Theorem sites_plain_inputs name f r en ofs :
+  site_ref name = Some f ->
+  let i := input_of (f r) en ofs in
+  i_tmpl i = None /\ i_comment i = None /\ i_expl i = None /\ i_headers i = [] /\
+  (i_detail i = None \/ exists pre, i_detail i = Some (pre ++ r_path_info r) \/ i_detail i = Some (pre ++ r_url r)).
+Proof.
+  unfold site_ref.
+  repeat match goal with |- context [if ?b then _ else _] => destruct b end; intros H; try discriminate;
+    injection H as <-; cbv zeta; unfold input_of; cbn; repeat split; auto.
+  - right. exists []. left. reflexivity.
+  - right. exists []. right. reflexivity.
+  - right. exists s_out_of_bounds. right. reflexivity.
+Qed.
+
+(* the model the correspondence run uses for a site case equals the specification of the reference site *)
+Theorem site_model_is_spec name g f r en ofs :
+  site_gen name = Some g -> site_ref name = Some f ->
+  model (input_of (g r) en ofs) = spec (input_of (f r) en ofs).
+Proof.
+  intros Hg Hf. destruct (site_gen_is_ref name g Hg) as [f' [Hf' Heq]]. rewrite Hf in Hf'. injection Hf' as <-.
+  rewrite Heq. apply generated_is_spec.
+Qed.
